@@ -68,6 +68,10 @@ Definition req_pos (code : Z) (arg : sx) : sx :=
   | 1311, SL [w; h; l] =>
       match sx_opt sx_q w, sx_opt sx_q h, sx_layout l with
       | Some w, Some h, Some l => of_bool (needs_missing w h l) | _, _, _ => bad end
+  | 1313, SL [c; s] =>
+      match sx_cfg c, sx_nset s with Some c, Some s => of_result of_nset (dfxp_transform_inline c s) | _, _ => bad end
+  | 1315, SL [a; SS printed] =>
+      match sx_size a with Some a => of_bool (ok_print_tol_stmt (s_val a) (s_unit a) printed) | None => bad end
   | 1312, SL [c; s] =>
       match sx_cfg c, sx_nset s with Some c, Some s => of_result of_nset (dfxp_transform_prefix c s) | _, _ => bad end
   | _, _ => bad
@@ -128,7 +132,7 @@ Definition req_tree (code : Z) (arg : sx) : sx :=
 
 Definition dispatch (code : Z) (arg : sx) : option sx :=
   match code with
-  | 1305 | 1306 | 1307 | 1308 | 1309 | 1310 | 1311 | 1312 => Some (req_pos code arg)
+  | 1305 | 1306 | 1307 | 1308 | 1309 | 1310 | 1311 | 1312 | 1313 | 1315 => Some (req_pos code arg)
   | 1200 | 1201 | 1202 | 1203 => Some (req_c12 code arg)
   | 1210 => Some (req_tree code arg)
   | _ => None
